@@ -106,6 +106,7 @@ def run(prop, tier):
         name = f"c01_queries_{c0 // CHUNK}"
         modpath = os.path.join(moddir, name + ".py")
         with open(modpath, "w") as f:
+            f.write("CUT = 30\nSCALE = 2\n" + pyref.HELPERS_SRC.replace("\ndef ", "\n\n\ndef ") + "\n\n")
             for i in range(c0, min(c0 + CHUNK, len(progs))):
                 body = "        ds\n"
                 for op, lam in chain_steps_m(progs[i]):
